@@ -93,4 +93,18 @@ PROPS = {
                                         '(gain_target 2e-6, tilt_target 2e-5, length / loss_coef 2e-6, others 1e-9)',
                                         'a design that raises midway is not judged for the SimParams clause (note N1)'],
     },
+    'C01': {
+        'engine': 'e1', 'module': 'gnpysim.e1_si',
+        'tiers': {
+            'quick': {'tasks': 32, 'max_examples': 120, 'step_count': 20, 'shrink_seconds': 60, 'task_timeout': 1500},
+            'thorough': {'tasks': 256, 'max_examples': 600, 'step_count': 40, 'shrink_seconds': 400,
+                         'task_timeout': 7000},
+        },
+        'components': {'real': ['gnpy.core.info.SpectralInformation and its constructors / select / demux / mux',
+                                'all elements, RamanSolver / NliSolver, propagate, auto-design (element layer)'],
+                       'stubbed': ['nothing']},
+        'assumptions': COMMON_ASSUME + ['no fault kind exists for a value object: faults_injected is empty by design',
+                                        'NLI additions are bounded by 0.3 of the channel power and launch powers by '
+                                        '+10 dBm, as the property states'],
+    },
 }
